@@ -57,9 +57,9 @@ def run(ctx):
     if not mon:
         common.report_disagreements(ctx, "regen", f5, "Kernels.GtldUpdate.render", [])
         common.report_disagreements(ctx, "dates", f1, "Kernels.Tld.parse_date", [])
-        common.report_disagreements(ctx, "valid", f2, "Kernels.Tld.has_valid_tld", [])
+        common.report_disagreements(ctx, "valid", f2, "Kernels.Tld.has_valid_tld", [], spec_theorem="Gen.Obl_C18_table.valid_here (ZL.Props.C18.c18_valid_iff on the regenerated table)" if ok1 else None)
         common.report_disagreements(ctx, "ever", f3, "Kernels.Tld.is_in_tld_map", [])
-        common.report_disagreements(ctx, "lint", f4, "Kernels.Tld.lint_tld", [])
+        common.report_disagreements(ctx, "lint", f4, "Kernels.Tld.lint_tld", [], spec_theorem="ZL.Props.C18.c18_lint with Gen.Obl_C18_table.tbl_ok" if ok1 else None)
     ctx.cov["rule"] = ("every table entry at its delegation instant, one second before (and, every 3rd entry in quick, one second after and far future), every removal instant "
                       "-1s/0/+1s, with spellings (upper case, sub-labels, leading dot); odd shapes (trailing dot, empty, non-ASCII incl. U+212A/U+0130, invalid UTF-8); every table "
                       "date string and malformed variants through time.Parse; the lint on certificates re-dated around boundaries; distinct = (probe kind, verdict) classes")
